@@ -181,8 +181,9 @@ def scase_coq(fd, prog, obs):
     return f"mkS {sa.coq_bool(fd)} {sa.coq_block(prog)} {blocks}"
 
 
-def acase_coq(fd, prog, steps):
-    st = sa.coq_list("AErr" if s is None else "AOk " + sa.coq_list(f"{i}%nat" for i in s) for s in steps)
+def acase_coq(fd, prog, steps, peaks):
+    st = sa.coq_list("AErr" if s is None else "AOk " + sa.coq_list(f"{i}%nat" for i in s) + f" {peaks[j]}"
+                     for j, s in enumerate(steps))
     return f"mkA {sa.coq_bool(fd)} {sa.coq_block(prog)} {st}"
 
 
@@ -294,7 +295,7 @@ BCODE = {1: "the specification gives the program no meaning (generator produced 
 
 
 # ------------------------------------------------------------------ C14: long sequences on one connection
-def run_sequence(repo, prog, compile_only=True, max_qubits=64):
+def run_sequence(repo, prog, compile_only=True, max_qubits=64, assemble=True):
     """every top-level statement on ONE real connection; after each: the sorted active
     register indices, or None when the SDK raised (the run stops there)."""
     from sdk_pipeline import Pipeline
@@ -318,7 +319,7 @@ def run_sequence(repo, prog, compile_only=True, max_qubits=64):
     for i, s in enumerate(prog):
         try:
             if s[0] == "flush" and compile_only:
-                it.compile_only()
+                it.compile_only(assemble=assemble)
             else:
                 it.stmt(s)
         except sa.IllFormed:
